@@ -338,6 +338,8 @@ func checkErrorShapes(c *Ctx, rule string) {
 			}
 		})
 		c.check(msgOK, rule, "status message is the error text", p.Pos(fn.Pos()), "msg = err.Error()", "the status message is no longer the error's text")
+	} else {
+		c.missing(rule, "statusFromError")
 	}
 	// client side: normaliseError
 	if ne := p.Func("normaliseError"); ne == nil {
